@@ -42,6 +42,8 @@ type node struct {
 	app    *app
 	height types.Height
 	recs   map[types.Height]*hrec
+
+	finished bool
 }
 
 func (n *node) rec(h types.Height) *hrec {
@@ -133,6 +135,7 @@ type sim struct {
 	unlocks      int
 	byzCommitted bool
 	syncs        int
+	splitLocks   bool
 }
 
 func (s *sim) fail(key, f string, a ...any) {
@@ -191,8 +194,33 @@ func (s *sim) startHeight(p *node) {
 	s.handle(p, acts, &cause{start: true})
 }
 
+// finish: the run covers heights h0..hEnd. A validator that decided hEnd leaves the simulation: the real driver would
+// call ProcessStart for the next height at once and never hands an input to a machine whose height is not started, so
+// the harness must not either (a machine left un-started reacts to stale timeouts; unreachable through the driver).
+func (s *sim) finish(p *node) {
+	p.finished = true
+	kept := s.inflight[:0]
+	for _, f := range s.inflight {
+		if f.to != p.i {
+			kept = append(kept, f)
+		}
+	}
+	s.inflight = kept
+	kt := s.tms[:0]
+	for _, t := range s.tms {
+		if t.to != p.i {
+			kt = append(kt, t)
+		}
+	}
+	s.tms = kt
+	s.tracef("      validator %d: decided the last height of the run and leaves the simulation", p.i)
+}
+
 func (s *sim) deliver(to int, m msg) {
 	p := s.nodes[to]
+	if p.finished {
+		return
+	}
 	p.rec(m.h).note(m)
 	if m.from >= 0 && m.from < s.n && s.nodes[m.from].byz {
 		k := eqKey{m.from, m.kind, m.h, m.r}
@@ -225,7 +253,7 @@ func (s *sim) fire(j int) {
 func (s *sim) broadcast(p *node, m msg) {
 	s.history = append(s.history, m)
 	for _, j := range s.correct {
-		if j != p.i {
+		if j != p.i && !s.nodes[j].finished {
 			s.inflight = append(s.inflight, flight{m, j})
 		}
 	}
@@ -266,7 +294,11 @@ func (s *sim) handle(p *node, acts []starknet.Action, cz *cause) {
 			if got := p.sm.Height(); got != p.height {
 				s.fail("height", "validator %d reports height %d after committing, expected %d", p.i, got, p.height)
 			}
-			s.startHeight(p)
+			if p.height <= s.hEnd {
+				s.startHeight(p)
+			} else {
+				s.finish(p)
+			}
 			return
 		case *actions.TriggerSync:
 			s.syncs++
@@ -338,6 +370,7 @@ func (s *sim) onSchedule(p *node, tm types.Timeout, cz *cause) {
 	s.tracef("      validator %d: schedules timeout %s(h%d r%d)", p.i, tm.Step, tm.Height, tm.Round)
 	s.tms = append(s.tms, ptm{tm, p.i})
 }
+
 
 func (s *sim) onProposal(p *node, a *starknet.BroadcastProposal, cz *cause) {
 	s.checkOwn(p, "a proposal", a.Height, a.Sender)
@@ -456,6 +489,11 @@ func (s *sim) onVote(p *node, kind byte, h types.Height, r types.Round, sender A
 			}
 			rec.lockR, rec.lockID = r, id.h
 			s.locks++
+			for _, j := range s.correct {
+				if o, ok := s.nodes[j].recs[h]; ok && j != p.i && o.lockR >= 0 && o.lockID != id.h {
+					s.splitLocks = true
+				}
+			}
 		}
 	}
 	rec.sentVote[kindIdx(kind)][r] = id
